@@ -334,7 +334,7 @@ def mark_unknown_helpers(ctx):
                  "their own: %s" % ", ".join(sorted(new)))
 
 
-def check_anchor_names(ctx, module):
+def check_anchor_names(ctx, module, present_only=False):
     """ANCHORS of a rule module: {function name: record regex} for every function the rules locate *by name*.
     A name that no longer exists in its class was renamed or removed: the rules anchored on it cannot decide
     (exit 2) - they must not report the absence of the old name as a violation. (A function that still exists but
@@ -354,11 +354,14 @@ def check_anchor_names(ctx, module):
         for f in rec.get("fields", []):
             have.setdefault(f.get("name"), []).append(rname)     # data members are anchors too
     gone = []
+    all_recs = set(ctx.fb.records().keys()) | set(fn.record or "" for fn in ctx.fb.all_fns())
     for name, rec_res in sorted(anchors.items()):
         if not isinstance(rec_res, (list, tuple)):
             rec_res = [rec_res]
         for rec_re in rec_res:
             rx = re.compile(rec_re) if rec_re else None
+            if present_only and rx is not None and not any(rx.search(r_) for r_ in all_recs):
+                continue        # the class is not part of these facts at all (dependent mode: the upper component does not use it)
             if not any(rx is None or rx.search(w) for w in have.get(name, [])):
                 gone.append("%s (of %s)" % (name, rec_re or "any class"))
     if gone:
@@ -527,6 +530,17 @@ def dependent_rules(ctx, module):
         try:
             mark_unknown_helpers(sub)
             dmod.run(sub)
+            if sub.violations:
+                # a renamed anchor of the lower rules is "cannot decide" there and a skip here, never a violation of this
+                # property. Template members that this component does not instantiate are invisible in its facts, so the
+                # anchor table is validated against the lower property's own units - only when something is about to be reported
+                d2 = tempfile.mkdtemp(prefix="bsa-dep-", dir="/dev/shm" if os.path.isdir("/dev/shm") else None)
+                try:
+                    full = _SubCtx(dep, ctx.tier)
+                    full.fb = FactBase(extract(dmod.units("quick"), d2))
+                    check_anchor_names(full, dmod)
+                finally:
+                    shutil.rmtree(d2, ignore_errors=True)
         except _DependentSkip as e:
             status = "stopped: %s" % str(e)[:160]
         except AnalysisBroken as e:
@@ -535,6 +549,8 @@ def dependent_rules(ctx, module):
             status = "stopped: %s: %s" % (type(e).__name__, str(e)[:120])
             if os.environ.get("BSA_DEBUG"):
                 traceback.print_exc()
+        if status != "evaluated" and sub.violations:
+            sub.obligations = [o for o in sub.obligations if o["ok"]]      # an analysis that stopped decides nothing
         n = 0
         for o in sub.obligations:
             o = dict(o)
